@@ -281,11 +281,28 @@ def gen_tie(pid: str):
             rc, o, e = sh(f"timeout 900 coqc {flags} {fn}", cwd=d, timeout=930)
             return fn, rc, o, e
 
-        # EqStats.v first (the others import it), then the rest in parallel
-        results = [one(files[0])]
-        if results[0][1] == 0 and len(files) > 1:
+        # compile in waves: a file goes once every Eq*.v it imports (`From FVG Require Import ...`) is compiled
+        def deps(fn):
+            txt = open(os.path.join(COQ, "Gen", fn)).read()
+            imp = set()
+            for m in re.finditer(r"From FVG Require Import ([^.]*)\.", txt):
+                imp |= {w + ".v" for w in m.group(1).split() if w != "GSrc"}
+            return imp
+        need = {fn: deps(fn) for fn in files}
+        missing = sorted({x for v in need.values() for x in v} - set(files))
+        if missing:
+            out.update(ok=False, failed=f"gen_units.EQ lists {files} but they import {missing}", log="")
+            return out
+        results, done, todo = [], set(), list(files)
+        while todo:
+            wave = [fn for fn in todo if need[fn] <= done]
+            if not wave:
+                break
             with ThreadPoolExecutor(max_workers=4) as ex:
-                results += list(ex.map(one, files[1:]))
+                rs = list(ex.map(one, wave))
+            results += rs
+            done |= {fn for fn, rc, _, _ in rs if rc == 0}
+            todo = [fn for fn in todo if fn not in wave]
         for fn, rc, o, e in results:
             names = [n for n in _theorem_names(os.path.join(d, fn))]
             out["theorems"] += [f"Gen.{fn[:-2]}.{n}" for n in names]
